@@ -21,7 +21,6 @@ package server
 //@   ensures timelyAccepted: authValid(fragments) && nanos(serverTime) - 180000000000 < tsSigned(authTs(fragments)) * 1000000000 && tsSigned(authTs(fragments)) * 1000000000 < nanos(serverTime) + 180000000000 ==> err == nil
 //@   ensures fields: err == nil ==> len(info.UID) == 16 && (forall k int :: 0 <= k && k < 16 ==> info.UID[k] == authPlain(fragments, k)) && info.EncryptionMethod == authPlain(fragments, 28) && info.Unordered == (authPlain(fragments, 41) % 2 == 1)
 //@   ensures sessionId: err == nil ==> int(info.SessionId) == int(authPlain(fragments, 37))*16777216 + int(authPlain(fragments, 38))*65536 + int(authPlain(fragments, 39))*256 + int(authPlain(fragments, 40))
-//@   flag noframe
 
 //@ lockorder userPanel.usageUpdateQueueM < userPanel.activeUsersM < ActiveUser.sessionsM < State.usedRandomM
 //@ guardedby State.usedRandomM: mapof(State.UsedRandom)
@@ -35,18 +34,27 @@ package server
 //@   # the cache key is the canonical encoding of the X25519 key: bit 255 (ignored by X25519) cleared
 //@   ensures testAndSet: ret0 == acq(mapHas(sta.UsedRandom, canonKey(r))) && mapHas(sta.UsedRandom, canonKey(r))
 //@   ensures othersKept: forall k [32]byte :: k != canonKey(r) ==> mapHas(sta.UsedRandom, k) == acq(mapHas(sta.UsedRandom, k)) && sta.UsedRandom[k] == acq(sta.UsedRandom[k])
-//@   flag noframe
+//@   ensures locks: !held(sta.usedRandomM)
+//@   modifies mapof(sta.UsedRandom)
 
 // AuthFirstPacket: the random is registered (test-and-set) BEFORE decryption on every path, and a
 // random seen before is answered with ErrReplay.
+// What no part of first-packet processing may touch: bytes already held in buffers (the consumed
+// prefix is replayed to the redirect target afterwards), the peer-facing state of every connection,
+// and the server configuration.
+//@ define KEEP heap(E_Int), heap(G_out), heap(G_outlen), heap(G_outwrites), heap(G_inpos), heap(G_closedconn), heap(G_rdeadline), heap(GU_replies), State.Panel, State.AdminUID, State.ProxyBook, State.BypassUID, State.StaticPv, State.RedirDialer, State.RedirHost, State.RedirPort, State.WorldState, heap(B_Slice), heap(MD_Str_Iface), heap(MV_Str_Iface)
 //@ func (Transport).processFirstPacket
 //@   flag trusted
+//@   requires pvOK(privateKey)
 //@   modifies *
+//@   preserves $KEEP
 //@ func AuthFirstPacket
-//@   requires sta != nil && transport != nil && holdsNone()
+//@   requires sta != nil && transport != nil && holdsNone() && pvOK(sta.StaticPv)
 //@   atcall decryptClientInfo requires registeredFirst: mapHas(sta.UsedRandom, canonKey(fragments.randPubKey))
-//@   ensures infoOnlyOnSuccess: err != nil ==> true
-//@   flag noframe
+//@   ensures decrypted: err == nil ==> succeeded("decryptClientInfo")
+//@   ensures locks: holdsNone()
+//@   modifies *
+//@   preserves $KEEP
 
 // UsedRandomCleaner (C08): retention of the replay memory. A packet registered at second t carries a
 // timestamp ts with t-180 < ts < t+180 and stays acceptable while now < ts+180, i.e. possibly until
@@ -91,3 +99,76 @@ package server
 //@   modifies elems(buf), connin(conn), connclosed(conn), conndeadline(conn)
 //@   loop 0 invariant progress: 1 <= bufOffset && bufOffset <= len(buf) && inpos(conn) == old(inpos(conn)) + bufOffset && closedconn(conn) == old(closedconn(conn))
 //@   loop 0 invariant bytes: forall k int :: 0 <= k && k < bufOffset ==> buf[k] == inbyte(conn, old(inpos(conn)) + k)
+
+// ClientHello / extension parsers: arbitrary bytes in, no panic out, caller's data untouched.
+//@ func parseExtensions
+//@   ensures mapOnSuccess: err == nil ==> ret != nil
+//@ func parseClientHello
+//@   ensures helloOnSuccess: err == nil ==> ret != nil && len(ret.random) == 32
+// (append(ch.sessionId, keyShare...) writes into the spare capacity of the session id slice, i.e.
+// into parseClientHello's private copy of the packet: that is the only memory touched)
+//@ import "crypto"
+//@ ghost func pvOK(k crypto.PrivateKey) bool { return typeIs[*[32]byte](k) && k.(*[32]byte) != nil }
+//@ func (TLS).unmarshalClientHello
+//@   requires ch != nil && pvOK(staticPv)
+//@   modifies elems(ch.sessionId[0:cap(ch.sessionId)])
+//@ func (WebSocket).unmarshalHidden
+//@   requires pvOK(staticPv)
+
+// ---------------------------------------------------------------------------------------------
+// dispatchConnection (C07 gate, C09 silence towards unauthenticated peers).
+//   Responder: the function type of the handshake finishers. A call of a Responder is the one place
+//   where the server itself writes to the peer; it is counted in the ghost counter "replies".
+// ---------------------------------------------------------------------------------------------
+//@ func Responder
+//@   flag trusted
+//@   ensures counted: ghostget("replies", originalConn) == old(ghostget("replies", originalConn)) + 1
+//@   modifies *
+//@   preserves State.Panel, State.AdminUID, State.ProxyBook, State.BypassUID
+// session bookkeeping of a user (C15): assumed here not to touch connections or configuration
+//@ func (*ActiveUser).GetSession
+//@   flag trusted
+//@   requires u != nil
+//@   ensures seshOnSuccess: err == nil ==> sesh != nil
+//@   modifies *
+//@   preserves $KEEP
+//@ func (*ActiveUser).CloseSession
+//@   flag trusted
+//@   requires u != nil
+//@   modifies *
+//@   preserves $KEEP
+//@ func (*userPanel).GetUser
+//@   flag trusted
+//@   requires panel != nil
+//@   ensures userOnSuccess: ret1 == nil ==> ret0 != nil
+//@   modifies *
+//@   preserves $KEEP
+//@ func (*userPanel).GetBypassUser
+//@   flag trusted
+//@   requires panel != nil
+//@   ensures userOnSuccess: ret1 == nil ==> ret0 != nil
+//@   modifies *
+//@   preserves $KEEP
+
+// IsBypass only reads.
+//@ func (*State).IsBypass
+//@   requires sta != nil
+
+//@ ghost func adminGate(sta *State, ci ClientInfo) bool { return len(sta.AdminUID) != 0 && bytesEq(ci.UID, sta.AdminUID) && ci.SessionId == 0 }
+//@ func dispatchConnection
+//@   requires conn != nil && sta != nil && sta.Panel != nil && sta.RedirDialer != nil && sta.RedirHost != nil && pvOK(sta.StaticPv) && holdsNone()
+//@   # C07: a handshake reply is produced only for an authenticated first packet that passes the admin
+//@   # gate, or names a served proxy method and a UID the user panel accepts
+//@   atcall Responder requires authorised: succeeded("AuthFirstPacket") && (adminGate(sta, ci) || (mapHas(sta.ProxyBook, ci.ProxyMethod) && (succeeded("(*userPanel).GetUser") || succeeded("(*userPanel).GetBypassUser"))))
+//@   # C09: unless such a reply was produced, the server itself has written nothing to the peer
+//@   ensures neverSpeaksFirst: ghostget("replies", conn) == old(ghostget("replies", conn)) ==> outlen(conn) == old(outlen(conn)) && outwrites(conn) == old(outwrites(conn))
+//@   # C07/C09: a first packet that was read but fails authentication, names an unserved proxy method
+//@   # or an unauthorised UID is handed to the redirect target
+//@   ensures rejectedAreRedirected: succeeded("readFirstPacket") && !(succeeded("(*userPanel).GetUser") || succeeded("(*userPanel).GetBypassUser")) && ghostget("replies", conn) == old(ghostget("replies", conn)) ==> called("(Dialer).Dial")
+//@   ensures unreadableAreRedirected: !succeeded("readFirstPacket") && !closedconn(conn) ==> called("(Dialer).Dial")
+//@   # C09: what goWeb replays to the target is exactly what was consumed from the peer, and the peer
+//@   # connection has no read deadline armed when it is handed to the relay
+//@   atcall Dial requires consumedPrefix: len(data) == inpos(conn) - old(inpos(conn)) && (forall k int :: 0 <= k && k < len(data) ==> data[k] == inbyte(conn, old(inpos(conn)) + k))
+//@   atcall Write requires replayIntact: len(data) == inpos(conn) - old(inpos(conn)) && (forall k int :: 0 <= k && k < len(data) ==> data[k] == inbyte(conn, old(inpos(conn)) + k))
+//@   atcall Dial requires relayUnimpeded: !deadlineArmed(conn) && closedconn(conn) == old(closedconn(conn))
+//@   flag noframe
